@@ -638,3 +638,182 @@ Definition hserves (h : list hstep) : nat :=
 (* lookup in the route map *)
 Fixpoint map_get (m : list (str * route)) (k : str) : option route :=
   match m with [] => None | (k', v) :: r => if str_eqb k' k then Some v else map_get r k end.
+
+(* ------------------------------------------------------------------ *)
+(** * RouteParams as the in/out argument of Router.Match; mux.ToHandler *)
+
+(* Router.Match does not build a RouteParams, it WRITES INTO the one the caller
+   hands in: "routeParams.Path = path; if routeParams.Vars == nil { Vars =
+   make(map) }; routeParams.PathTemplate = matchedPattern; extractRouteParams"
+   and extractVars assigns output[name] = submatch for the variables of the
+   selected route only -- bindings already in the map stay.  When no route
+   matches, Match returns before touching it.  [rp_vars = None] is the nil map. *)
+Record rp := mkRp { rp_path : str; rp_tmpl : str; rp_vars : option (list (str * str)) }.
+
+(* new(RouteParams) *)
+Definition rp_new : rp := mkRp [] [] None.
+
+Definition rp_map (p : rp) : list (str * str) := match rp_vars p with Some m => m | None => [] end.
+
+Definition match_into (sel : option route) (path : str) (p0 : rp) : rp :=
+  match sel with
+  | None => p0
+  | Some r =>
+      mkRp path (r_pat r)
+           (Some (match extract r path with
+                  | Some vals => vars_map (var_names (r_parts r)) vals (rp_map p0)
+                  | None => rp_map p0
+                  end))
+  end.
+
+(* what a handler can read of its RouteParams (a nil and an empty Vars map are
+   indistinguishable for a reader): nothing at all, or Path, PathTemplate, Vars *)
+Definition rp_obs (p : rp) : rparams :=
+  if is_nil (rp_map p) && is_nil (rp_tmpl p) && is_nil (rp_path p) then None
+  else Some (rp_path p, rp_tmpl p, rp_map p).
+
+(* Router.ServeCOAP on a request whose RouteParams is [p0] *)
+Definition serve_into (st : rstate) (mws : list (Z * bool)) (order : list route) (segs : list str) (p0 : rp)
+  : list ev * rp :=
+  let path := filter_path (path_of segs) in
+  let sel := scan order path None O in
+  let h := match sel with Some r => Some (r_h r) | None => st_default st end in
+  (match h with None => [] | Some _ => run_chain mws h end, match_into sel path p0).
+
+(* mux.ToHandler (the adapter the udp/tcp/dtls servers call): every request gets
+   "&Message{Message: r, RouteParams: new(RouteParams)}" *)
+Definition to_handler (st : rstate) (mws : list (Z * bool)) (order : list route) (segs : list str)
+  : list ev * rp := serve_into st mws order segs rp_new.
+
+(* a history served through the adapter *)
+Fixpoint run_adapter (st : rstate) (mws : list (Z * bool)) (h : list hstep) : list (list ev * rp) :=
+  match h with
+  | [] => []
+  | HOp o :: r => run_adapter (fst (apply_op st o)) mws r
+  | HServe segs order :: r => to_handler st mws order segs :: run_adapter st mws r
+  end.
+
+(* ------------------------------------------------------------------ *)
+(** * fine-grained locking: sync.RWMutex explicit, the scan one route at a time *)
+
+(* [cstep] above executes a whole critical section as one step.  Here the lock
+   is part of the state (number of readers, writer flag), taking it is a step
+   that may be refused (the thread stays where it is: blocked), and the loop
+   "for pattern, route := range r.z" of Router.Match is one step PER ROUTE, each
+   reading the live map.  Between two of these steps any other thread may run. *)
+
+Inductive fpc :=
+| FIdle
+(* inside Match, read lock held: path, default handler read earlier, positions
+   still to visit, best route so far and its pattern length.  [order] (all
+   positions) and [snap] (the map when the lock was taken) are ghost fields
+   for the dispatch record, the code has no such variables *)
+| FScan (path : str) (d : option Z) (order todo : list nat) (best : option route) (n : nat)
+        (snap : list (str * route))
+(* inside Handle / HandleRemove / DefaultHandle, write lock held *)
+| FWrite (o : op).
+
+Record fthread := mkF { f_pc : fpc; f_local : option (option Z); f_jobs : list job }.
+
+Record fconfig := mkFC {
+  fc_st : rstate; fc_readers : nat; fc_writer : bool;
+  fc_threads : list fthread; fc_log : list drec; fc_results : list (nat * opres) }.
+
+(* Handle returns before it takes the lock when the handler is nil or the
+   pattern does not compile (error or panic) *)
+Definition op_prelock (o : op) : option opres :=
+  match o with
+  | OHandle pat None => Some ResErr
+  | OHandle pat (Some _) =>
+      match new_route_regexp (filter_path pat) with
+      | CErr => Some ResErr
+      | CPanic => Some ResPanic
+      | COk _ => None
+      end
+  | _ => None
+  end.
+
+(* the next step of thread [tid] needs the lock and cannot have it now *)
+Definition fblocked (c : fconfig) (tid : nat) : bool :=
+  match nth_error (fc_threads c) tid with
+  | None => false
+  | Some t =>
+      match f_pc t, f_jobs t with
+      | FIdle, JOp o :: _ =>
+          match op_prelock o with
+          | Some _ => false
+          | None => negb (Nat.eqb (fc_readers c) 0) || fc_writer c    (* Lock *)
+          end
+      | FIdle, JServe _ _ :: _ => fc_writer c                          (* RLock *)
+      | _, _ => false
+      end
+  end.
+
+Definition fstep (c : fconfig) (tid : nat) : fconfig :=
+  match nth_error (fc_threads c) tid with
+  | None => c
+  | Some t =>
+      let upd := fun t' => set_nth (fc_threads c) tid t' in
+      match f_pc t with
+      | FWrite o =>      (* the assignment / delete, then Unlock *)
+          let '(st', res) := apply_op (fc_st c) o in
+          mkFC st' (fc_readers c) false (upd (mkF FIdle (f_local t) (f_jobs t))) (fc_log c)
+               (fc_results c ++ [(tid, res)])
+      | FScan path d order todo best n snap =>
+          match todo with
+          | i :: rest =>   (* one iteration of the range loop: reads r.z as it is NOW *)
+              let pc' :=
+                match nth_error (st_routes (fc_st c)) i with
+                | Some kv =>
+                    let r := snd kv in
+                    if path_match r path then
+                      if is_none best || (n <? length (r_pat r))%nat
+                      then FScan path d order rest (Some r) (length (r_pat r)) snap
+                      else FScan path d order rest best n snap
+                    else FScan path d order rest best n snap
+                | None => FScan path d order rest best n snap
+                end in
+              mkFC (fc_st c) (fc_readers c) (fc_writer c) (upd (mkF pc' (f_local t) (f_jobs t)))
+                   (fc_log c) (fc_results c)
+          | [] =>          (* RUnlock *)
+              mkFC (fc_st c) (pred (fc_readers c)) (fc_writer c) (upd (mkF FIdle None (f_jobs t)))
+                   (fc_log c ++ [mkDrec tid path snap order d best]) (fc_results c)
+          end
+      | FIdle =>
+          match f_jobs t with
+          | [] => c
+          | JOp o :: js =>
+              match op_prelock o with
+              | Some res =>
+                  mkFC (fc_st c) (fc_readers c) (fc_writer c) (upd (mkF FIdle (f_local t) js))
+                       (fc_log c) (fc_results c ++ [(tid, res)])
+              | None =>    (* Lock: only when nobody reads or writes *)
+                  if Nat.eqb (fc_readers c) 0 && negb (fc_writer c)
+                  then mkFC (fc_st c) (fc_readers c) true (upd (mkF (FWrite o) (f_local t) js))
+                            (fc_log c) (fc_results c)
+                  else c
+              end
+          | JServe segs order :: js =>
+              if fc_writer c then c      (* RLock refused while a writer holds the lock *)
+              else
+                match f_local t with
+                | None =>   (* RLock; defaultHandler := r.defaultHandler; RUnlock *)
+                    mkFC (fc_st c) (fc_readers c) (fc_writer c)
+                         (upd (mkF FIdle (Some (st_default (fc_st c))) (f_jobs t))) (fc_log c) (fc_results c)
+                | Some d => (* RLock of Match *)
+                    mkFC (fc_st c) (S (fc_readers c)) (fc_writer c)
+                         (upd (mkF (FScan (filter_path (path_of segs)) d order order None O (st_routes (fc_st c)))
+                                   (f_local t) js))
+                         (fc_log c) (fc_results c)
+                end
+          end
+      end
+  end.
+
+Definition frun (c : fconfig) (sched : list nat) : fconfig := fold_left fstep sched c.
+
+Definition finit (st : rstate) (jobs : list (list job)) : fconfig :=
+  mkFC st O false (map (fun js => mkF FIdle None js) jobs) [] [].
+
+Definition is_scan (t : fthread) : bool := match f_pc t with FScan _ _ _ _ _ _ _ => true | _ => false end.
+Definition is_write (t : fthread) : bool := match f_pc t with FWrite _ => true | _ => false end.
